@@ -485,6 +485,10 @@ func (g *Gen) builtin(fr *Frame, st *State, bi *ssa.Builtin, c *ssa.CallCommon, 
 			g.assume(st, g.cmp(token.LEQ, g.idxLit(0), r, intT))
 			return Val{T: r}
 		case *types.Chan:
+			if bi.Name() == "cap" {
+				cs := fmt.Sprintf("(Array Int %s)", g.idxSort())
+				return Val{T: sx("select", g.heapGet(st, "CC:cap", cs), v)}
+			}
 			r := g.freshConst("chanlen", g.idxSort())
 			g.assume(st, g.cmp(token.LEQ, g.idxLit(0), r, intT))
 			return Val{T: r}
